@@ -65,13 +65,17 @@ def _is_simple(vertices):
     segments.
     """
     try:
-        return len(poly_point_isect.isect_polygon(vertices)) == 0
+        if len(poly_point_isect.isect_polygon(vertices)) == 0:
+            return True
     except AssertionError:
         # The sweep line's internal consistency checks can trip on degenerate event
-        # orders (typically for self-intersecting input); fall back to the
-        # exhaustive pairwise test shipped with the same module.
-        points = [tuple(float(x) for x in v[:2]) for v in vertices]
-        return len(poly_point_isect.isect_polygon__naive(points)) == 0
+        # orders (typically for self-intersecting input).
+        pass
+    # The sweep line works with absolute epsilons and occasionally reports a crossing
+    # for a simple polygon (depending on its scale), so a positive answer is confirmed
+    # with the exhaustive pairwise test shipped with the same module.
+    points = [tuple(float(x) for x in v[:2]) for v in vertices]
+    return len(poly_point_isect.isect_polygon__naive(points)) == 0
 
 
 class Polygon(Shape2D):
